@@ -70,11 +70,14 @@ class Unit:
         self.foreach_stack = []
         self.notes = []
         self.trusted = []
+        self.broadcast = []
+        self.features = []
+        self.renames = {}      # path -> {old identifier: new identifier}   (rule R15)
 
 
 def parse_vspec(path):
     u = Unit()
-    lines = _read_with_imports(path)
+    lines = _apply_defines(_read_with_imports(path))
     # @foreach X in a b c ... @endforeach  (textual repetition with $X substitution)
     lines = _expand_foreach(lines)
     i = 0
@@ -107,6 +110,13 @@ def parse_vspec(path):
                 u.name = rest
             elif d == "@uses":
                 u.props = rest.split()
+            elif d == "@feature":
+                u.features += rest.split()
+            elif d == "@rename":
+                pth, old, new = rest.split()
+                u.renames.setdefault(pth, {})[old] = new
+            elif d == "@broadcast":
+                u.broadcast += rest.split()
             elif d == "@trusted":
                 u.trusted.append(rest)
             elif d == "@header":
@@ -220,6 +230,42 @@ def parse_vspec(path):
     return u
 
 
+def _apply_defines(lines):
+    """`@define NAME(a, b) body`  then  `$NAME(x, y)` anywhere later is replaced textually."""
+    defs = {}
+    out = []
+    for ln in lines:
+        m = re.match(r"\s*@define\s+(\w+)\(([^)]*)\)\s+(.*)$", ln)
+        if m:
+            defs[m.group(1)] = ([a.strip() for a in m.group(2).split(",") if a.strip()], m.group(3))
+            continue
+        for _ in range(6):
+            changed = False
+            for name, (params, body) in defs.items():
+                k = ln.find("$" + name + "(")
+                while k >= 0:
+                    d, j = 0, k + len(name) + 1
+                    while j < len(ln):
+                        if ln[j] == "(":
+                            d += 1
+                        elif ln[j] == ")":
+                            d -= 1
+                            if d == 0:
+                                break
+                        j += 1
+                    args = rsx._split_top(ln[k + len(name) + 2:j]) if params else []
+                    rep = body
+                    for pn, av in zip(params, args):
+                        rep = re.sub(r"\b" + pn + r"\b", lambda _m, av=av: av, rep)
+                    ln = ln[:k] + "(" + rep + ")" + ln[j + 1:]
+                    changed = True
+                    k = ln.find("$" + name + "(")
+            if not changed:
+                break
+        out.append(ln)
+    return out
+
+
 def _read_with_imports(path, seen=()):
     out = []
     for ln in open(path).read().split("\n"):
@@ -257,7 +303,7 @@ def _expand_foreach(lines):
                 inst = []
                 for b in body:
                     for vn, vv in zip(vars_, val):
-                        b = b.replace("$" + vn.strip(), vv)
+                        b = b.replace("$" + vn.strip(), vv.replace("~", " "))
                     inst.append(b)
                 out += _expand_foreach(inst)
             i = j + 1
@@ -322,7 +368,10 @@ def build_item(u, spec, twin, gen):
     gen.rule_log += [dict(rule=r, macro=n, args=a, file=spec.path) for (r, n, a) in log if
                      dict(rule=r, macro=n, args=a, file=spec.path) not in gen.rule_log]
     toks = rsx.tokenize(src)
-    found = rsx.find_items(src, toks, spec.header)
+    try:
+        found = rsx.find_items(src, toks, spec.header)
+    except RsxError as ex:
+        raise RsxError(f"{spec.path} :: {spec.header}: {ex}")
     if len(found) < spec.ordinal:
         raise RsxError(f"item not found: {spec.path} :: {spec.header} (#{spec.ordinal}); found {len(found)}")
     if len(found) > 1 and spec.ordinal == 1 and not re.search(r"#\d+$", spec.header):
@@ -337,7 +386,11 @@ def build_item(u, spec, twin, gen):
     byname = {}
     for f in fns:
         byname.setdefault(f.name, []).append(f)
+    ren0 = u.renames.get(spec.path, {})
+    inv_ren = {v: k for k, v in ren0.items()}
     for nm in list(spec.fns) + list(spec.drops):
+        if nm in inv_ren and inv_ren[nm] in byname:
+            continue
         if nm not in byname:
             raise RsxError(f"{spec.path} :: {spec.header}: function `{nm}` not found (renamed or moved?)")
 
@@ -376,6 +429,17 @@ def build_item(u, spec, twin, gen):
         rules.r6_copy(text, m, red)
     if "R11" not in skip:
         rules.r11_paths(text, m, red, kept_fns)
+    # R15: private items of different source modules that collide in the flat namespace are
+    # renamed (definition and every use inside items of that file)
+    ren = u.renames.get(spec.path, {})
+    if ren:
+        for t in itoks:
+            if t.kind == "id" and t.text in ren:
+                red.add(t.s, t.e, ren[t.text], "R15")
+    if "R13" not in skip:
+        rules.r13_le_bytes(text, m, red)
+    if "R14" not in skip:
+        rules.r14_wild_params(text, m, red, kept_fns)
     if "R7" in spec.extra_rules:
         rules.r7_format(text, m, red)
     # R12 anchored regions
@@ -433,6 +497,8 @@ def build_item(u, spec, twin, gen):
         ed.add(f.e, f.e, "/*@endfn*/", "S-marker", prio=5)
         clauses = list(fs.clauses) if fs else []
         do_twin = twin and f.has_body and not is_assumed
+        if fs and not fs.returns and any(re.search(r"\br\b", c.text) for c in fs.clauses):
+            fs.returns = "r"
         if fs and fs.returns:
             if f.ret_s is not None:
                 ed.add(f.ret_s, f.ret_s, f"({fs.returns}: ", "S-ret", prio=-1)
@@ -519,7 +585,11 @@ def generate(unit_path, twin=False):
         else:
             body.append(build_item(u, val, twin, gen))
     head = "#![allow(unused_imports, dead_code, unused_variables, unused_mut, unused_unsafe, unreachable_code, unused_assignments, non_camel_case_types, unused_parens, unused_braces)]\n"
+    if u.features:
+        head += "#![feature(" + ", ".join(dict.fromkeys(u.features)) + ")]\n"
     head += "use vstd::prelude::*;\n" + "\n".join(u.header) + "\n"
+    if u.broadcast:
+        body.insert(0, "broadcast use {" + ", ".join(dict.fromkeys(u.broadcast)) + "};")
     gen.text = head + "verus! {\n\n" + "\n\n".join(body) + "\n\n} // verus!\nfn main() {}\n"
     gen.unit = u
     return gen
